@@ -26,7 +26,8 @@ use pre::*;
 broadcast use {axiom_path_as_path};
 pub const MAX_FILE_CACHE_SIZE: usize = 2000;
 
-//@dbstruct_arc definitions file_cache available_fixtures_cache cycle_cache definitions_version canonical_path_cache line_index_cache imported_fixtures_cache ast_cache
+#[verifier::external_type_specification] pub struct ExUndeclaredFixture(UndeclaredFixture);
+//@dbstruct_arc definitions file_definitions usages usage_by_fixture undeclared_fixtures imports file_cache available_fixtures_cache cycle_cache definitions_version canonical_path_cache line_index_cache imported_fixtures_cache ast_cache
 
 /// everything the memoised computations may read: definitions and cached texts (the file system is a constant)
 pub struct QView { pub defs: Map<Seq<char>, Seq<DefV>>, pub texts: Map<PV, Seq<char>> }
@@ -121,12 +122,16 @@ impl FixtureDatabase {
 @*/
 
 /*@ extract src/fixtures/mod.rs cleanup_file_cache
-@tags C07
+@tags C07 C06 C19
 @recv mut
 @wrapexpr 1 `file_path .canonicalize() .unwrap_or_else(|_| file_path.to_path_buf())` => `Self::vp_canonicalize_or_self(file_path)` with fn vp_canonicalize_or_self(file_path: &Path) -> (r: PathBuf) ensures pbv(&r) == canon(pv(file_path))
 @sig
     ensures
         // closing a document drops only cached data of that file: the index (definitions) and the version stay
+        // frame: no index map is touched
+        final(self).file_definitions == old(self).file_definitions, final(self).usages == old(self).usages,
+        final(self).usage_by_fixture == old(self).usage_by_fixture, final(self).undeclared_fixtures == old(self).undeclared_fixtures,
+        final(self).imports == old(self).imports,
         final(self).definitions == old(self).definitions, final(self).version() == old(self).version(),
         final(self).file_cache.m() == old(self).file_cache.m().remove(canon(pv(file_path))),
         final(self).available_fixtures_cache.m() == old(self).available_fixtures_cache.m().remove(canon(pv(file_path))),
@@ -134,12 +139,16 @@ impl FixtureDatabase {
 @*/
 
 /*@ extract src/fixtures/mod.rs evict_cache_if_needed
-@tags C07
+@tags C07 C06 C19
 @recv mut
 @closure map:1 |entry: RefMulti<'_, PathBuf, Arc<String>>| -> (p: PathBuf) ensures pbv(&p) == pbv(entry.k)
 @sig
     ensures
         // eviction only ever drops cached data: the index and the version stay, cached texts only shrink
+        // frame: no index map is touched
+        final(self).file_definitions == old(self).file_definitions, final(self).usages == old(self).usages,
+        final(self).usage_by_fixture == old(self).usage_by_fixture, final(self).undeclared_fixtures == old(self).undeclared_fixtures,
+        final(self).imports == old(self).imports,
         final(self).definitions == old(self).definitions, final(self).version() == old(self).version(),
         final(self).cycle_cache == old(self).cycle_cache,
         final(self).file_cache.m().submap_of(old(self).file_cache.m()),
@@ -147,6 +156,8 @@ impl FixtureDatabase {
 @loopvar 1 it
 @loop 1
     invariant
+        self.file_definitions == old(self).file_definitions, self.usages == old(self).usages, self.usage_by_fixture == old(self).usage_by_fixture,
+        self.undeclared_fixtures == old(self).undeclared_fixtures, self.imports == old(self).imports,
         self.definitions == old(self).definitions, self.version() == old(self).version(), self.cycle_cache == old(self).cycle_cache,
         self.file_cache.m().submap_of(old(self).file_cache.m()),
         self.available_fixtures_cache.m().submap_of(old(self).available_fixtures_cache.m()),
